@@ -6,6 +6,7 @@
 import TvNetTable.Model.Table
 import TvNetTable.Model.Replay17
 import TvNetTable.Model.TableSpec
+import TvNetTable.Model.Replay19
 
 open TV
 
@@ -98,6 +99,139 @@ def runCase17 (lines : Array (Nat × String)) : CaseResult := Id.run do
   res := { res with oFails := res.oFails ++ g.fails }
   return res
 
+def parseOp19 (t : List String) : Option R19.Op :=
+  match t with
+  | _ :: _ :: "install" :: r :: kvs => do
+    let label ← tokNat r "r"
+    let mut mode := "guard"
+    let mut table : List Verdict := []
+    let mut tcp := Verdict.pass
+    for kv in kvs do
+      match kv.splitOn "=" with
+      | ["mode", v] => mode := v
+      | ["table", v] => table := (v.splitOn ",").filterMap R19.parseVerdict
+      | ["tcp", v] => tcp := (R19.parseVerdict v).getD .pass
+      | _ => pure ()
+    some (.install label mode table tcp)
+  | [_, _, "gdrop", r] => do some (.gdrop (← tokNat r "r"))
+  | [_, _, "forget", r] => do some (.forget (← tokNat r "r"))
+  | [_, h, "usend", s, a, p, tag] => do
+    some (.usend (← tokNat h "h") (← tokNat s "s") (← O17.parseIp a) (← p.toNat?) (← tag.toNat?))
+  | _ :: _ :: "tconnect" :: _ => some .tcpop
+  | _ :: _ :: "tpoll" :: _ => some .tcpop
+  | _ :: _ :: "taccept" :: _ => some .tcpop
+  | _ :: _ :: "twrite" :: _ => some .tcpop
+  | _ :: _ :: "tread" :: _ => some .tcpop
+  | _ :: _ :: "tclose" :: _ => some .tcpop
+  | [_, _, "enter"] => some .enter
+  | [_, _, "step"] => some .step
+  | [_, _, "drain"] => some .drain
+  | [_, _, "tick", k] => do some (.tick (← k.toNat?))
+  | _ => none
+
+def parseRecv (v : String) : List R19.Recv :=
+  if v == "-" then [] else
+  (v.splitOn ",").filterMap fun item =>
+    match item.splitOn "@" with
+    | [lhs, ep] =>
+      match lhs.splitOn ".s", O17.parseEp ep with
+      | [h, s], some e => do some ⟨← tokNat h "h", ← s.toNat?, e⟩
+      | _, _ => none
+    | _ => none
+
+def cfgVal (line key : String) : Option String :=
+  (line.splitOn " ").findSome? fun t =>
+    match t.splitOn "=" with
+    | [k, v] => if k == key then some v else none
+    | _ => none
+
+/-- One C19 case. -/
+def runCase19 (lines : Array (Nat × String)) : CaseResult := Id.run do
+  let mut res : CaseResult := {}
+  let mut w : R19.World := {}
+  let mut g : O19.G := {}
+  let mut steps := 0
+  let mut kLive := true
+  -- split into groups: an OP line and the ORA/OBS lines that follow it
+  let mut i := 0
+  while i < lines.size do
+    let (ln, l) := lines[i]!
+    if l.startsWith "CFG" then
+      let hs := parseHosts l
+      let recv := parseRecv ((cfgVal l "recv").getD "-")
+      let fx := (cfgVal l "fixture").getD "wire"
+      let tk := ((cfgVal l "tick_us").bind (·.toNat?)).getD 1000
+      steps := ((cfgVal l "steps").bind (·.toNat?)).getD 0
+      w := { fixture := fx, hosts := hs, recv := recv, tickUs := tk, entered := fx != "wire" }
+      g := { fixture := fx, hosts := hs, recv := recv, tickUs := tk }
+      i := i + 1
+    else if l.startsWith "OP " then
+      let mut egress : List String := []
+      let mut obs : Array (Nat × String) := #[]
+      let mut j := i + 1
+      while j < lines.size && !(lines[j]!.2.startsWith "OP ") do
+        let (ln2, l2) := lines[j]!
+        if l2.startsWith "ORA egress " then
+          let v := (l2.drop 11).copy
+          egress := if v == "-" then [] else v.splitOn " "
+        else if l2.startsWith "OBS " then
+          obs := obs.push (ln2, (l2.drop 4).copy)
+        j := j + 1
+      match parseOp19 (l.splitOn " ") with
+      | none =>
+        if res.kOk then res := { res with kOk := false, kLine := ln, kDetail := "unparsable op" }
+        kLive := false
+      | some op =>
+        -- K
+        if kLive then
+          let pk := egress.filterMap R19.parseDesc
+          let (w', exp, cov) := R19.step w op pk
+          w := w'
+          res := { res with cov := addCov res.cov cov }
+          match exp with
+          | none => pure ()
+          | some expLines =>
+            let got := obs.toList.map (·.2)
+            if got != expLines then
+              -- first differing line
+              let idx := (List.range (max got.length expLines.length)).find? fun k => got[k]? != expLines[k]?
+              let k := idx.getD 0
+              let lnBad := match obs[k]? with | some (n, _) => n | none => ln
+              res := { res with kOk := false, kLine := lnBad,
+                                kDetail := "want=" ++ (expLines[k]?.getD "<nothing>") ++ " got=" ++ (got[k]?.getD "<nothing>") }
+              kLive := false
+        -- O
+        match op with
+        | .step | .tick _ =>
+          g := { g with pendingEgress := egress,
+                        curTick := match op with | .tick k => k | _ => 0 }
+          for (_, o) in obs do
+            if o.startsWith "eval " then g := O19.onEval g ((o.drop 5).copy.splitOn " ")
+            else if o.startsWith "arrive " then g := O19.onArrive g (o.drop 7).copy
+            else if o.startsWith "err" then pure ()
+            else g := g.fail ("unexpected observation " ++ o)
+          if !g.pendingEgress.isEmpty then
+            g := g.fail s!"packets left a host but were not shown to rules: {g.pendingEgress}"
+            g := { g with pendingEgress := [] }
+        | .drain =>
+          for (_, o) in obs do g := O19.onDrain g o
+        | _ =>
+          for (_, o) in obs do
+            if o.startsWith "panic" then g := g.fail ("implementation panicked: " ++ o)
+            else if o.startsWith "stray" then g := g.fail ("observation off the tick grid: " ++ o)
+            else g := O19.onOp g op o
+      i := j
+    else
+      if l.startsWith "OBS panic" then
+        g := g.fail ("implementation panicked: " ++ l)
+        if res.kOk then res := { res with kOk := false, kLine := ln, kDetail := "panic" }
+      else if l.startsWith "OBS stray" then
+        g := g.fail ("observation off the tick grid: " ++ l)
+      i := i + 1
+  g := O19.finish g steps
+  res := { res with oFails := res.oFails ++ g.fails }
+  return res
+
 def caseLine (n : String) (r : CaseResult) : String :=
   let detail := (if r.kOk then "" else "K:" ++ r.kDetail ++ " ") ++
     (match r.oFails with | [] => "" | f :: _ => "O:" ++ f ++ (if r.oFails.length > 1 then s!" (+{r.oFails.length - 1} more)" else ""))
@@ -122,7 +256,7 @@ partial def main (args : List String) : IO UInt32 := do
         while j < lines.size && lines[j]! != "END" do
           body := body.push (j + 1, lines[j]!)
           j := j + 1
-        let r := if prop == "C17" then runCase17 body else runCase17 body
+        let r := if prop == "C17" then runCase17 body else runCase19 body
         cases := cases + 1
         if !r.kOk then km := km + 1
         if !r.oFails.isEmpty then ofl := ofl + 1
